@@ -120,6 +120,11 @@ def register_t1(J):
                  statement="C11: econf_newKeyFile yields the empty configuration: length 0, KEY_FILE_DEFAULT_LENGTH spare "
                            "slots each initialised exactly once in order, the given delimiter/comment character, no "
                            "options, layers, sections, path (the loop has a constant bound and is unwound completely)."))
+    J.append(Job("newinifile", ["C11", "C07"], "harness/growth.c", sources=["lib/libeconf.c"],
+                 contracts=["contracts/growth.h"], enforce="econf_newIniFile", replace=["econf_newKeyFile"], unwind=10, tier="T1",
+                 defines=["-DPART_NEWINI=1"], timeout=300, mem_gb=4, expect=[r"econf_newIniFile\.postcondition"],
+                 statement="C11/C07: econf_newIniFile is econf_newKeyFile with delimiter '=' and comment character '#' "
+                           "(the constructor REPLACED by its proved contract, job newkeyfile)."))
     J.append(Job("grouplist", ["C11", "C04"], "harness/growth.c", sources=["lib/helpers.c"], contracts=["contracts/growth.h"],
                  enforce="getFromGroupList", replace=["strcmp"], loop_tags=["grouplist"], unwind=8, tier="T1",
                  defines=["-DPART_GROUPLIST=1"], timeout=300, mem_gb=4, expect=[r"loop_invariant_step"],
